@@ -65,6 +65,16 @@ def gen_amount(rng):
     return Proportion(v, pct, None, prep)
 
 
+def gen_title(rng):
+    """the name of a single-output sub recipe: now and then empty or blank (`'' := mix(a, b)` is legal source: a box with an empty title row)"""
+    k = rng.random()
+    if k < 0.04:
+        return SVS("")
+    if k < 0.07:
+        return SVS(rng.choice([" ", "\t", "  "]))
+    return gen_svs(rng)
+
+
 def gen_tree(rng, depth, subs, allow_sub=True, max_arity=4):
     """subs: earlier sub recipe roots that may be referenced"""
     k = rng.random()
@@ -74,7 +84,7 @@ def gen_tree(rng, depth, subs, allow_sub=True, max_arity=4):
             return Reference(sr, rng.randrange(len(sr.output_names)), gen_amount(rng))
         return Ingredient(gen_svs(rng), gen_quantity(rng) if rng.random() < 0.6 else None)
     if allow_sub and k < 0.45:
-        return SubRecipe(gen_tree(rng, depth - 1, subs, True, max_arity), (gen_svs(rng),), rng.random() < 0.7)
+        return SubRecipe(gen_tree(rng, depth - 1, subs, True, max_arity), (gen_title(rng),), rng.random() < 0.7)
     n = rng.choice([1, 1, 2, 2, 3, max_arity])
     return Step(gen_svs(rng), tuple(gen_tree(rng, depth - 1, subs, allow_sub, max_arity) for _ in range(n)))
 
@@ -86,7 +96,7 @@ def gen_root(rng, depth, subs, max_arity=4):
         # (the flag that hides a single name has no meaning for a list of outputs: the list is drawn whatever it says)
         return SubRecipe(body, tuple(gen_svs(rng) for _ in range(rng.randint(2, 4))), rng.random() < 0.6)
     if k < 0.5 and not isinstance(body, SubRecipe):
-        return SubRecipe(body, (gen_svs(rng),), rng.random() < 0.7)
+        return SubRecipe(body, (gen_title(rng),), rng.random() < 0.7)
     return body
 
 
